@@ -1,8 +1,8 @@
 ENGINES = [
-    {"name": "kvc", "path": "cv/kvc", "serves_properties": ["C08", "C09", "C19", "C10", "C11", "C12"],
+    {"name": "kvc", "path": "cv/kvc", "serves_properties": ["C08", "C09", "C19", "C10", "C11", "C12", "C04", "C18"],
      "kind_free_text": "verification-condition generator over the AST of the working tree's source (normalised .pyx / .py), sidecar contracts, z3 + cvc5 discharge, counter-model replay on the real build"},
 ]
-ENGINES.append({"name": "rtc", "path": "cv/rtc", "serves_properties": ["C06", "C07", "C15", "C10", "C11", "C12", "C18"],
+ENGINES.append({"name": "rtc", "path": "cv/rtc", "serves_properties": ["C01", "C02", "C03", "C04", "C05", "C06", "C07", "C13", "C14", "C15", "C10", "C11", "C12", "C18"],
                 "kind_free_text": "run-time contracts (requires/old/ensures with named clauses) attached to the real functions of a scratch copy of the working tree, driven over exhaustively enumerated small scopes; the bounded stand-in, never counted as proved"})
 ENGINES.append({"name": "frames", "path": "cv/frames", "serves_properties": ["C16", "C17", "C20"],
                 "kind_free_text": "frame (modifies) contracts: static provenance analysis of every store site over the working tree's ASTs; substituted-pool frame monitor on the real task closures; z3 commutation lemma; exceptional-flow obligations"})
@@ -86,5 +86,47 @@ CHECKS = {
         technique="exceptional-flow obligations on the real calculate()/fill_one_cube ASTs (all inputs) + fault enumeration: raise at every callback invocation index, every subset in pooled mode (bounded)",
         text="Structural obligations: guarded callback is the first statement of each task and called nowhere else, no handler between it and the caller, only contextlib.closing as with-item, task invoked once per sub-cube from exactly the serial loop and pool.map, regions local to the call. Bounded: every invocation index (every subset with the real ThreadPool for <= 4 sub-cubes) raises -> that exception propagates; quiet callback consulted once per sub-cube; re-use afterwards equals a fresh evaluation.",
         note="Pooled mode: which raised exception wins depends on the schedule (not explored); ThreadPool.map's re-raise is an assumption (exercised by the bounded part).",
+    ),
+    "C01": dict(
+        engine="rtc", category="exploration", design_ref="DESIGN.md §4, §6 C01",
+        technique='run-time contracts on the real functions over an exhaustively enumerated bounded scope (bounded stand-in: NumPy-heavy bodies are outside the VC generator)',
+        text='Contracts on the real from_array / to_array: wf(result), shape, whole dense view == mapped input, common as requested, arguments unchanged, no raise; to_array equals the (mapped) view compared as Python ints for explicit and default dtype; round trip stated directly. Every feasible combination of the construction-strategy skeleton (counts given, mapping, common given/absent/omitted, size 0, < 5 distinct, where vs row-scan, 1-D/2-D: 84 combinations) must be executed (path cover) or the check is broken.',
+        note='Bounded: arrays N<=3 over 4 values, 2-D N<=2xC<=2, dtype-boundary values, 80-120-row arrays with exhaustively placed payload to reach the row-scan strategy; values >= 2**20 only where bincount is bypassed.',
+    ),
+    "C02": dict(
+        engine="rtc", category="exploration", design_ref="DESIGN.md §4, §6 C02",
+        technique='run-time contracts on the real functions over an exhaustively enumerated bounded scope (bounded stand-in: NumPy-heavy bodies are outside the VC generator)',
+        text='Chain of contracts, each on a real function and checked at every call: ffunc_count.get_initial_regions (corner == N, rest 0), the _fill closure (cell == len(rowids), every other cell unchanged), _compute_common_cells_from_marginal_diffs (requires brute-force counts at uncommon/margin cells -> ensures brute-force counts everywhere incl. margins), reduce / ccube.count == brute-force contingency table, missing exactly where the count is zero, exact shape; 0-3 dimensions, multi-axis dimensions, explicit and inferred shapes, every common incl. absent.',
+        note='Bounded (353k cubes in the quick tier, exhaustive data for N<=4); 4 dimensions and 65536/65537 extents in the thorough tier only. The intersection kernel enters proved (C08/C09).',
+    ),
+    "C14": dict(
+        engine="rtc", category="exploration", design_ref="DESIGN.md §4, §6 C14",
+        technique='run-time contracts on the real functions over an exhaustively enumerated bounded scope (bounded stand-in: NumPy-heavy bodies are outside the VC generator)',
+        text='Ghost trace of the callbacks of the real walk and of every recursion branch of _walk: delivers every non-empty uncommon/marginal combination, nothing else and each exactly once, row ids equal the brute-force rows(c), uint32 strictly increasing, never the common category; base_rowids is the running intersection at every entry.',
+        note='Bounded (same enumeration as C02, 1-3 one-axis dimensions, 4 in the thorough tier).',
+    ),
+    "C03": dict(
+        engine="rtc", category="exploration", design_ref="DESIGN.md §4, §6 C03",
+        technique='run-time contracts on the real functions over an exhaustively enumerated bounded scope (bounded stand-in: NumPy-heavy bodies are outside the VC generator)',
+        text='The same postcondition out ~ Spec_agg(views, fact, weights, policy) on both cube types for count, valid_count, sum, mean (missing cells exactly, values within 1e-9 of the grand total, exact shape) plus direct ccube/xcube agreement; intermediate contracts on as_separate_validity, _set_strides/strided_dims, every ffunc/xfunc __init__, get_initial_regions, _fill closures and xfunc fill (per-bin values and counters).',
+        note="Bounded: pairwise-covering design over fact form x weight form x policy x dim dtype x format on every cube in scope, exhaustive data for 1-dim cubes N<=3; two independent formulations of the spec's missing set are cross-checked on every input.",
+    ),
+    "C04": dict(
+        engine="rtc", category="exploration", design_ref="DESIGN.md §4, §6 C04",
+        technique='deductive verification of the real reduce methods cell-wise (z3) + run-time contracts on real cube outputs (bounded)',
+        text="Proved (engine A): for every counter-based reduce of ffuncs/xfuncs (9 classes, both policies, weighted/unweighted, three formats; 228 obligations) the reported missing flag equals the property's rule as a function of the cell's valid/missing row counts and weight mass, and the three report formats agree on flag and value - cell-wise symbolic execution of the real reduce ASTs, linear arithmetic, z3. Bounded: the same rule and the format relations on real cube outputs (engine C).",
+        note='Proved half assumes: marginal differencing leaves the per-cell aggregate in every cell (checked at run time under C02/C03), floats as reals, isclose(x,0) == (x == 0). The documented valid_count/plain-0/propagation shortcut is excluded as the property says.',
+    ),
+    "C05": dict(
+        engine="rtc", category="exploration", design_ref="DESIGN.md §4, §6 C05",
+        technique='run-time contracts on the real functions over an exhaustively enumerated bounded scope (bounded stand-in: NumPy-heavy bodies are outside the VC generator)',
+        text="Relational clauses on real cube outputs: every re-encoding of every dimension (each value in the extent, incl. never-occurring ones, built directly with the spec layer) leaves every aggregate's missing set and values unchanged, and again after a renormalising shift_common(); explicit identical interacting_shape.",
+        note="Bounded; the oracle is the property's own (the same cube under another encoding). Counts of empty / rare / most-frequent common cells are reported and must be non-zero.",
+    ),
+    "C13": dict(
+        engine="rtc", category="exploration", design_ref="DESIGN.md §4, §6 C13",
+        technique='run-time contracts on the real functions over an exhaustively enumerated bounded scope (bounded stand-in: NumPy-heavy bodies are outside the VC generator)',
+        text='On both cube types and every aggregate: result.shape == extra extents (dimension order, then axis order) + category extents (+ fact columns); every block result[j1..jm] equals the aggregate over the 1-D slices at those positions; contracts on ccube.product / xcube.product (each combination exactly once, documented order, data is the slice at its coordinates).',
+        note="Bounded; extra extents 1-4 pairwise different (and equal-extent lists so that a transposition stays in bounds); the oracle is the property's own (cube of the 1-D slices, itself under C02/C03's contracts).",
     ),
 }
